@@ -293,7 +293,13 @@ def replay(rec):
     r = rec['record']
     print(r['brief'])
     part = run_unit(('replay', r['seed'], r['regime'],
-                     r['argv'][-1], 3, 20000))
+                     r['argv'][-1], 3,
+                     20000 if r['regime'] == 'depth' else 2000))
+    # the last field of some signatures is the name of the seed
+    want = rec['signature']
+    if want.startswith('history-dependent|'):
+        want = want.rsplit('|', 1)[0]
     sigs = [v[0] for v in part['violations']]
-    print('found again:', rec['signature'] in sigs)
-    return 1 if rec['signature'] in sigs else 0
+    again = any(x == want or x.rsplit('|', 1)[0] == want for x in sigs)
+    print('found again:', again)
+    return 1 if again else 0
